@@ -195,8 +195,21 @@ fn flush(run: &mut Run, kind: Kind, list: &[Tr], g: bool, panics: Vec<String>, f
         run.violation("no-panic", class, case_json(kind, list, g), short(panics.join("; ")));
     }
     for (clause, detail) in found.0 {
-        run.violation(clause, "", case_json(kind, list, g), short(detail));
+        let class = if matches!(clause, "returns-values" | "prediction-equals-target-no-fp-fn") && g && list.iter().any(|t| t.iter().any(|s| d16_pred(s))) { D16 } else { "" };
+        run.violation(clause, class, case_json(kind, list, g), short(detail));
     }
+}
+
+/// Known defect class D16 (computed from the case, never assumed): grapheme mode, and the text the
+/// metrics work on -- clean, NFKC, clean -- still has a grapheme cluster that mixes whitespace and
+/// non-whitespace code points (NFKC turns U+00B4 into a space and a combining mark, which form one
+/// cluster), so it is not a fixed point of cleaning.
+const D16: &str = "D16-prepared-text-has-a-cluster-mixing-whitespace-and-a-mark";
+
+fn d16_pred(s: &str) -> bool {
+    use text_utils::unicode::{normalize, Normalization};
+    let prepared = text_utils::text::clean(&normalize(&text_utils::text::clean(s, true), Normalization::NFKC, true), true);
+    refs::has_mixed_cluster(&prepared)
 }
 
 /// sequence-averaged whitespace F1 of the singleton list [("a","a","a")] (no operation at all)
@@ -880,6 +893,7 @@ fn main() {
                 continue;
             }
             for p in &wide {
+                run.tick();
                 for t in &wide {
                     let tr: Tr = [i, p, t];
                     for g in [false, true] {
@@ -907,6 +921,7 @@ fn main() {
                 continue;
             }
             for p in &nk {
+                run.tick();
                 for t in &nk {
                     let tr: Tr = [i, p, t];
                     for g in [false, true] {
